@@ -372,7 +372,7 @@ fire('functor-variables-first-arg-only', ['C01'], ['C01.V2'],
 fire('declarations-after-body', ['C01'], ['C01.V3'],
      (G, "        return head_var_arguments + free_var_declaration_code_head + free_var_declaration_code_body + arg_list_unification_code",
          "        return head_var_arguments + free_var_declaration_code_head + arg_list_unification_code + free_var_declaration_code_body"))
-fire('missing-pop-bound-vars', ['C01'], ['C01.V3'],
+fire('missing-pop-bound-vars', ['C01'], ['C01.V3', 'C01.V6'],
      (G, "        self.pop_bound_vars()\n        self.pop_bound_vars()\n        self.pop_bound_vars()\n", "        self.pop_bound_vars()\n        self.pop_bound_vars()\n"))
 fire('alias-test-inverted', ['C01'], ['C01.H1'],
      (G, "            if self.head_args_by_pos[i-1] == None:\n                argvar", "            if self.head_args_by_pos[i-1] != None:\n                argvar"))
